@@ -138,17 +138,7 @@ class LegacySeqTx(LegacyTx):
             return '[%s.1, %s.2]' % (v, v), L(TEXT)
         return super().iter_ex(node)
 
-    def run_unit(self):
-        # a Unit method that rebinds a parameter (`con = list(con)`): the local starts as the parameter (pymethod.run_unit leaves it at
-        # its default; pyfunc.run initialises it)
-        text = super().run_unit()
-        if self.rebound:
-            init = ', '.join('%s := %s' % (ident(p), ident(p)) for p in self.rebound)
-            old = 'let mut v : %s.Vars := {  }' % self.name
-            if text.count(old) != 1:
-                raise Shape('%s: cannot initialise the rebound parameters' % self.name)
-            text = text.replace(old, 'let mut v : %s.Vars := { %s }' % (self.name, init))
-        return text
+    # (a Unit method that rebinds a parameter - `con = list(con)` - starts the local as the parameter: pymethod.run_unit does that now)
 
     def stmt(self, st, out, ind, inloop):
         if isinstance(st, ast.Expr) and isinstance(st.value, ast.Call) and ast.unparse(st.value.func) == 'warnings.warn' \
